@@ -73,12 +73,17 @@ pub struct Client {
     pub pending: Vec<Pending>,
     pub counter: u64,
     pub clock: Option<rt::VClock>,
+    /// every n-th queued write is polled once, right after the call, with a throw-away waker of another "task" (0 = never):
+    /// the later await then presents a different waker, which must be the one that is woken
+    pub pre_poll_every: u64,
+    pub pre_polls: u64,
+    writes_issued: u64,
 }
 
 impl Client {
-    pub fn new(id: u64) -> Client { Client { id, log: Vec::new(), pending: Vec::new(), counter: 0, clock: None } }
+    pub fn new(id: u64) -> Client { Client { id, log: Vec::new(), pending: Vec::new(), counter: 0, clock: None, pre_poll_every: 0, pre_polls: 0, writes_issued: 0 } }
 
-    pub fn with_clock(id: u64, clock: rt::VClock) -> Client { Client { id, log: Vec::new(), pending: Vec::new(), counter: 0, clock: Some(clock) } }
+    pub fn with_clock(id: u64, clock: rt::VClock) -> Client { Client { id, log: Vec::new(), pending: Vec::new(), counter: 0, clock: Some(clock), pre_poll_every: 0, pre_polls: 0, writes_issued: 0 } }
 
     fn clk(&self) -> u64 { self.clock.as_ref().map(|c| c.ns()).unwrap_or(0) }
 
@@ -103,6 +108,12 @@ impl Client {
         let index = self.log.len();
         match issued {
             Issued::Ack(ack, uid) => {
+                self.writes_issued += 1;
+                if self.pre_poll_every != 0 && uid != 0 && self.writes_issued % self.pre_poll_every == 0 {
+                    let other_task = rt::CountingWaker::new();
+                    let _ = rt::poll_once(ack.handle(), &other_task);
+                    self.pre_polls += 1;
+                }
                 self.log.push(OpRec { thread: self.id, call, ret, clk_call, clk_done: 0, outcome: Outcome::Write { op, uid, error: None, panicked: None, status: None, acked_at: None } });
                 self.pending.push(Pending { index, ack, uid });
             }
@@ -361,7 +372,7 @@ pub fn check_ack_outcomes(logs: &[OpRec], during_shutdown: bool, counts: &mut Co
                 Some(Waited::Ready(s)) => counts.inc(format!("acks:{}", status_name(s))),
                 Some(Waited::ReadyPending) => findings.push(Finding { props: vec!["C12"], signature: "C12/ready-pending".into(),
                     detail: format!("awaiting {} yielded the placeholder status Pending", op.shape()), witness: witness(&[rec]), inconclusive: false }),
-                Some(Waited::LostWakeup) => findings.push(Finding { props: vec!["C12"], signature: "C12/lost-wakeup".into(),
+                Some(Waited::LostWakeup) => findings.push(Finding { props: if during_shutdown { vec!["C12", "C13"] } else { vec!["C12"] }, signature: "C12/lost-wakeup".into(),
                     detail: format!("{} was acknowledged but the task that polled it was never woken", op.shape()), witness: witness(&[rec]), inconclusive: false }),
                 Some(Waited::WorkerDead) => {
                     let site = rt::panics_since(panic_mark).last().map(rt::panic_site).unwrap_or_else(|| "no-panic".into());
@@ -536,7 +547,7 @@ fn mixed_cfg(focus: &str, seed: u64, index: u64, clean: bool) -> MixedCfg {
     };
     let perturb = *rng.pick(&[(0u64, 0u64, 0u64), (30, 10, 2), (100, 30, 5), (10, 60, 10), (200, 0, 0)]);
     let forced = if rng.chance(1, 3) { Some((*rng.pick(&STRETCH_SITES), rng.range(1500, 5000))) } else { None };
-    let churn = index % 4 == 0;
+    let churn = if focus == "C07" { index % 2 == 0 } else { index % 4 == 0 };
     let (threads, keys) = if churn { (threads.max(8), rng.range(1, 2)) } else { (threads, keys) };
     // churn cases have no memory pressure and no time-to-live: nothing but a delete removes a key, so every put / upsert outcome can be judged
     let mut sut = sut;
@@ -627,6 +638,7 @@ fn run_mixed(focus: &'static str, seed: u64, index: u64, clean: bool) -> CaseOut
         let mut rng = rt::rng_for(seed, index, 100 + t as u64);
         crew.spawn(move || {
             let mut client = Client::with_clock(t as u64 + 1, clock);
+            client.pre_poll_every = 4;
             for n in 0..cfg.ops {
                 if rt::aborted() { break; }
                 let key = rng.range(1, cfg.keys);
@@ -636,9 +648,11 @@ fn run_mixed(focus: &'static str, seed: u64, index: u64, clean: bool) -> CaseOut
                 } else {
                     let op = if cfg.churn {
                         let weight = if cfg.clean_weights { key_weight(key) } else { rng.range(25, 60) as i64 };
+                        // few deletes when the focus is on put outcomes: the key is then almost always present and every put must be rejected
+                        let delete_from = if focus == "C07" { 8 } else { 5 };
                         match rng.below(13) {
-                            0..=4 => WriteOp::Upsert { key, value: None, weight: Some(weight), ttl: None, remove_ttl: false },
-                            5..=8 => WriteOp::Delete { key },
+                            n if n < delete_from => WriteOp::Upsert { key, value: None, weight: Some(weight), ttl: None, remove_ttl: false },
+                            n if n <= 8 => WriteOp::Delete { key },
                             _ => { let value = client.token(key); WriteOp::PutW { key, value, weight } }
                         }
                     } else { gen_write(&mut rng, &mut client, &cfg, key) };
@@ -656,7 +670,7 @@ fn run_mixed(focus: &'static str, seed: u64, index: u64, clean: bool) -> CaseOut
     match crew.join("the clients of a mixed run to finish") {
         Ok(clients) => {
             if clients.len() != expected_clients { findings.push(Finding { props: vec!["C17"], signature: "C17/client-thread-panicked-outside-catch".into(), detail: "a client thread died".into(), witness: case.clone(), inconclusive: false }); }
-            for client in clients { logs.extend(client.log); }
+            for client in clients { counts.add("acknowledgements_first_polled_by_another_task", client.pre_polls); logs.extend(client.log); }
         }
         Err(Waited::Deadlock(description)) => findings.push(Finding { props: vec!["C18", "C17"], signature: "C18/deadlock/clients-stuck-inside-api-calls".into(),
             detail: format!("client threads never returned from their calls and nothing progresses: {}", description), witness: case.clone(), inconclusive: false }),
@@ -1061,14 +1075,14 @@ fn run_sweep_reput(focus: &'static str, seed: u64, index: u64) -> CaseOut {
 ///   exactly fills the cache according to the weights really held must be accepted without evicting anything (C03 / C06).
 fn run_sweep_other_key(focus: &'static str, seed: u64, index: u64) -> CaseOut {
     let mut rng = rt::rng_for(seed, index, 0x50C);
-    let variant = index % 3;
+    let variant = index % 4;
     let shards = 2usize;
     let max_weight: i64 = match variant { 0 => 100, 2 => 400, _ => 100_000 };
     let sutcfg = SutCfg { counters: 100, capacity: 16, max_weight, shards, cmd_buf: 8, pool: 1, buf: 2, tick: Duration::from_millis(1),
         weight_mode: WeightMode::Custom, hash_mode: HashMode::Default, start_ns: rt::START_NS };
     let sites_delete = [Site::WeightDeleteAfterRemove, Site::WeightDeleteHoldingTotal, Site::SweepBeforeEvict];
     let sites_add = [Site::WeightAddBetween, Site::WeightDeleteAfterRemove, Site::WeightDeleteHoldingTotal, Site::AdmissionAfterSpaceCheck];
-    let site = if variant == 2 { sites_add[((index / 3) % 4) as usize] } else { sites_delete[((index / 3) % 3) as usize] };
+    let site = if variant == 2 { sites_add[((index / 4) % 4) as usize] } else { sites_delete[((index / 4) % 3) as usize] };
     let case = J::obj().with("engine", J::s("conc")).with("scenario", J::s("sweep-other-key")).with("variant", J::Int(variant as i128)).with("focus", J::s(focus))
         .with("seed", J::Int(seed as i128)).with("index", J::Int(index as i128)).with("stretched_site", J::s(format!("{:?}", site))).with("config", sutcfg.to_json());
     let mut counts = Counts::default();
@@ -1123,6 +1137,28 @@ fn run_sweep_other_key(focus: &'static str, seed: u64, index: u64) -> CaseOut {
                     detail: format!("key 2 had its time-to-live {} by an acknowledged put_or_update while the sweeper was busy in the same TTL shard; after the clock passed the old deadline it reads {:?}", if extend { "extended" } else { "removed" }, got),
                     witness: witness(&client.log.iter().collect::<Vec<_>>()), inconclusive: false });
             }
+        }
+        3 => {
+            // "expired key touched during the sweep": J and K are both past their deadline in the same TTL shard; the sweeper is
+            // stretched on whichever it visits first while a client extends K's time-to-live with a value-bearing upsert (applied
+            // in place on the expired entry, then blocked on the shard). Whatever the sweeper then does with K's stale
+            // registration, store and weight map must agree afterwards.
+            let (vj, vk) = (client.token(1), client.token(2));
+            client.write(&sut.cache, WriteOp::PutWTtl { key: 1, value: vj, weight: 30, ttl: Duration::from_secs(1) });
+            client.write(&sut.cache, WriteOp::PutWTtl { key: 2, value: vk, weight: 30, ttl: Duration::from_secs(1) });
+            client.settle_all(&marks);
+            sched().forced_hits.store(0, Ordering::SeqCst);
+            sched().force_delay(site, 8_000, 1);
+            sut.advance(3 * NS);
+            let stalled = rt::poll_until(Duration::from_millis(300), || sched().forced_hits.load(Ordering::SeqCst) >= 1);
+            let v2 = client.token(2);
+            let extend = index % 8 < 4;
+            let op = if extend { WriteOp::Upsert { key: 2, value: Some(v2), weight: Some(30), ttl: Some(Duration::from_secs(1000)), remove_ttl: false } }
+                else { WriteOp::Upsert { key: 2, value: Some(v2), weight: Some(30), ttl: None, remove_ttl: true } };
+            client.write(&sut.cache, op);
+            client.settle_all(&marks);
+            if stalled { nontrivial = true; counts.inc("upserts_of_an_expired_key_made_while_the_sweeper_held_the_shard"); }
+            sched().clear_forced();
         }
         _ => {
             // resident keys, some with a TTL that is about to pass; the worker keeps adding while the sweeper deletes
@@ -1182,10 +1218,100 @@ fn run_sweep_other_key(focus: &'static str, seed: u64, index: u64) -> CaseOut {
             }
         }
     }
-    let signature = fnv_step(fnv_step(0x50C, index % 36), variant);
+    let signature = fnv_step(fnv_step(0x50C, index % 48), variant);
     let sample = case.clone().with("operations", J::Arr(logs.iter().take(10).map(|r| r.to_json()).collect()));
     if let Err(waited) = sut.finish_or_leak() { if findings.is_empty() { push_stuck(&mut findings, "shutdown after a sweep race", waited, &case); } }
     counts.inc("cases");
+    CaseOut { findings, counts, signature, nontrivial, sample }
+}
+
+// ------------------------------------------------------------------------------------------------ scenario: a readable key in a store shard that is kept write-locked (C07 / C08 directed)
+
+/// Hammer threads keep the store shards write-locked (time-to-live-only upserts of other keys: applied in place, no command
+/// queued) while the main client puts and upserts a key that is readable the whole time: every put must be answered
+/// KeyAlreadyExists and leave the value alone, every upsert must be Accepted and visible at once.
+fn run_locked_shard(focus: &'static str, seed: u64, index: u64) -> CaseOut {
+    let mut rng = rt::rng_for(seed, index, 0x10C);
+    let hammers = *rng.pick(&[4usize, 6, 8]);
+    let sutcfg = SutCfg { counters: 100, capacity: 16, max_weight: 1_000_000, shards: 2, cmd_buf: *rng.pick(&[4usize, 64]), pool: 1, buf: 2, tick: Duration::from_secs(3600),
+        weight_mode: WeightMode::Custom, hash_mode: HashMode::Default, start_ns: rt::START_NS };
+    let case = J::obj().with("engine", J::s("conc")).with("scenario", J::s("locked-shard")).with("focus", J::s(focus)).with("seed", J::Int(seed as i128))
+        .with("index", J::Int(index as i128)).with("hammer_threads", J::u(hammers)).with("config", sutcfg.to_json());
+    let mut counts = Counts::default();
+    let mut findings = Vec::new();
+    prep(1, 0, 0, 0, false);
+    let panic_mark = rt::panic_count();
+    let sut = Sut::new(sutcfg);
+    let marks = sut.marks;
+    let mut client = Client::new(1);
+    let mut current = client.token(1);
+    client.write(&sut.cache, WriteOp::PutW { key: 1, value: current, weight: 10 });
+    for key in 100..100 + 2 * hammers as u64 { let v = client.token(key); client.write(&sut.cache, WriteOp::PutWTtl { key, value: v, weight: 30, ttl: Duration::from_secs(10_000) }); }
+    client.settle_all(&marks);
+    let stop = Arc::new(AtomicBool::new(false));
+    let hammered = Arc::new(AtomicU64::new(0));
+    let mut crew: rt::Crew<()> = rt::Crew::new();
+    for h in 0..hammers {
+        let (cache, stop, hammered) = (sut.cache.clone(), stop.clone(), hammered.clone());
+        crew.spawn(move || {
+            rt::register_helper_thread();
+            let keys = [100 + 2 * h as u64, 101 + 2 * h as u64];
+            let mut n = 0u64;
+            while !stop.load(Ordering::Relaxed) {
+                n += 1;
+                // a different time-to-live every time: the store entry is rewritten in place under the shard's write lock
+                let _ = issue(&cache, &WriteOp::Upsert { key: keys[(n % 2) as usize], value: None, weight: None, ttl: Some(Duration::from_secs(10_000 + n % 1000)), remove_ttl: false });
+                hammered.fetch_add(1, Ordering::Relaxed);
+            }
+        });
+    }
+    let witness_case = case.clone();
+    let witness = |recs: &[&OpRec]| witness_of(&witness_case, recs);
+    let rounds = 150;
+    for n in 0..rounds {
+        if rt::aborted() { break; }
+        if n % 3 == 2 {
+            // an upsert of the readable key: in place, accepted, visible when the call returns
+            let value = client.token(1);
+            let i = client.write(&sut.cache, WriteOp::Upsert { key: 1, value: Some(value), weight: Some(10), ttl: None, remove_ttl: false });
+            let seen = sut.cache.get(&1);
+            client.settle_all(&marks);
+            let status = match &client.log[i].outcome { Outcome::Write { status: Some(Waited::Ready(s)), .. } => Some(*s), _ => None };
+            counts.inc("upserts_of_a_readable_key_under_lock_contention");
+            if status != Some(CommandStatus::Accepted) || seen != Some(value) {
+                findings.push(Finding { props: vec!["C08"], signature: format!("C08/upsert-of-readable-key-not-applied/locked-shard/{}", status.map(|s| status_name(&s)).unwrap_or_else(|| "?".into())),
+                    detail: format!("put_or_update of readable key 1 resolved to {:?}; a read right after the call returned {:?} instead of the new value {:#x}", status.map(|s| status_name(&s)), seen, value),
+                    witness: witness(&[&client.log[i]]), inconclusive: false });
+                break;
+            }
+            current = value;
+        } else {
+            let value = client.token(1);
+            let op = if n % 2 == 0 { WriteOp::PutW { key: 1, value, weight: 10 } } else { WriteOp::PutWTtl { key: 1, value, weight: 34, ttl: Duration::from_secs(500) } };
+            let i = client.write(&sut.cache, op);
+            client.settle_all(&marks);
+            let status = match &client.log[i].outcome { Outcome::Write { status: Some(Waited::Ready(s)), .. } => Some(*s), _ => None };
+            let seen = sut.cache.get(&1);
+            counts.inc("puts_of_a_readable_key_under_lock_contention");
+            if status != Some(CommandStatus::Rejected(RejectionReason::KeyAlreadyExists)) || seen != Some(current) {
+                findings.push(Finding { props: vec!["C07", "C05"], signature: format!("C07/put-on-readable-key-not-rejected/locked-shard/{}", status.map(|s| status_name(&s)).unwrap_or_else(|| "?".into())),
+                    detail: format!("a put of readable key 1 resolved to {:?} and the key now reads {:?} (its value was {:#x}) while other threads kept the store shard write-locked", status.map(|s| status_name(&s)), seen, current),
+                    witness: witness(&[&client.log[i]]), inconclusive: false });
+                break;
+            }
+        }
+    }
+    stop.store(true, Ordering::SeqCst);
+    if let Err(waited) = crew.join("the hammer threads to finish") { push_stuck(&mut findings, "hammer threads of a locked-shard case", waited, &case); }
+    counts.add("in_place_rewrites_by_hammer_threads", hammered.load(Ordering::Relaxed));
+    let logs = client.log.clone();
+    check_ack_outcomes(&logs, false, &mut counts, &mut findings, &witness, panic_mark);
+    if sut.quiesce().is_ok() && !rt::aborted() { check_quiescent_accounting(&sut, "locked-shard", &mut counts, &mut findings, case.clone()); }
+    let signature = fnv_step(fnv_step(0x10C, index % 64), hammers as u64);
+    let sample = case.clone().with("operations", J::Arr(logs.iter().skip(2 * hammers + 1).take(8).map(|r| r.to_json()).collect()));
+    if let Err(waited) = sut.finish_or_leak() { if findings.is_empty() { push_stuck(&mut findings, "shutdown after a locked-shard case", waited, &case); } }
+    counts.inc("cases");
+    let nontrivial = counts.get("in_place_rewrites_by_hammer_threads") > 100;
     CaseOut { findings, counts, signature, nontrivial, sample }
 }
 
@@ -1384,6 +1510,7 @@ pub fn run(args: &Args) -> Shard {
             "held-client" => run_held_client(focus, seed, index),
             "sweep-reput" => run_sweep_reput(focus, seed, index),
             "sweep-other-key" => run_sweep_other_key(focus, seed, index),
+            "locked-shard" => run_locked_shard(focus, seed, index),
             "burst" => crate::conc2::run_burst(focus, seed, index),
             "shutdown" => crate::conc2::run_shutdown(focus, seed, index),
             "stall" => crate::conc2::run_stall(focus, seed, index),
